@@ -189,14 +189,23 @@ Handler ==
 \* fresh AuthContext (variant "ctx_hoisted": the context is built once per connection and only its
 \* Credential field is replaced, so the parsed AUTH_SYS data of the first call stays attached)
 NextRequest ==
-  /\ ph = "done" /\ out \in {"ACCEPTED", "DENIED"} /\ nreq = 1 /\ Focus = "cred"
+  /\ ph = "done" /\ out \in {"ACCEPTED", "DENIED", "replied"} /\ nreq = 1 /\ Focus = "cred"
   /\ \E c2 \in SecondCreds : rq' = [rq EXCEPT !.cred = c2]
   /\ ph' = "step1" /\ out' = "none" /\ reached' = FALSE /\ bcalls' = 0 /\ granted' = NoGrant /\ nreq' = 2
   /\ eff' = NoEff
   /\ ctxsys' = IF Variant = "ctx_hoisted" THEN ctxsys ELSE NoSys
   /\ UNCHANGED <<pol, pol0>>
 
-Next == Accept \/ Reconfigure \/ Step1 \/ Step2 \/ Step3 \/ Squash \/ Spawn \/ Handler \/ NextRequest
+\* a run-time update that names no squash mode (UpdatePolicyOptions(PolicyOptions{ReadOnly: ..}),
+\* UpdateExportOptions with Squash ""), between two requests of a connection: refused or accepted,
+\* the mode stays (variant "update_clears_squash": the accepted snapshot is stored with Squash "")
+RuntimeUpdate ==
+  /\ ph = "done" /\ out \in {"ACCEPTED", "DENIED"} /\ nreq = 1 /\ Focus = "cred" /\ pol.ro = pol0.ro
+  /\ pol' = [pol EXCEPT !.ro = ~@, !.squash = IF Variant = "update_clears_squash" THEN "" ELSE @]
+  /\ out' = "replied" /\ granted' = NoGrant      \* the first request's reply is out of the picture
+  /\ UNCHANGED <<ph, rq, pol0, eff, reached, bcalls, ctxsys, nreq>>
+
+Next == Accept \/ Reconfigure \/ Step1 \/ Step2 \/ Step3 \/ Squash \/ Spawn \/ Handler \/ NextRequest \/ RuntimeUpdate
 Spec == Init /\ [][Next]_vars
 
 -----------------------------------------------------------------------------
@@ -210,9 +219,9 @@ DeniedClean == out \in {"DENIED", "closed"} => ~reached /\ bcalls = 0
 ConnSameRule == /\ out = "closed" => HostVerdict(rq.client, pol0.allowed) # "yes"
                 /\ (ph # "accept" /\ out # "closed") => HostVerdict(rq.client, pol0.allowed) # "no"
 \* an admissible request with a good credential is processed
-Processed == (ph = "done" /\ out # "closed" /\ AdmitNow = "yes"
-              /\ AuthVerdict(ModeClass(Lower(pol.squash)), rq.cred).allow = "yes") => out = "ACCEPTED"
-HostDecided == (ph = "done" /\ out # "closed" /\ AdmitNow = "no") => out = "DENIED"
+Processed == (ph = "done" /\ out \notin {"closed", "replied"} /\ AdmitNow = "yes"
+              /\ AuthVerdict(ModeClass(Lower(pol0.squash)), rq.cred).allow = "yes") => out = "ACCEPTED"
+HostDecided == (ph = "done" /\ out \notin {"closed", "replied"} /\ AdmitNow = "no") => out = "DENIED"
 
 \* algebra of the rule, evaluated on the initial states (every client x entry pair)
 FirstE == pol.allowed[1]
@@ -248,21 +257,21 @@ MemberIsYes ==
      => (MemberVerdict(rq.client, pol.allowed) = "yes" => Member(rq.client, pol.allowed))
         /\ (Member(rq.client, pol.allowed) => MemberVerdict(rq.client, pol.allowed) # "no")
 
-(* C10 *)
+(* C10.  The squash mode is the one the export was created with (pol0): it is immutable at run time *)
 Established == ph \in {"spawn", "handler"} \/ (ph = "done" /\ out = "ACCEPTED")
 EffIdeal ==
-  Established => AuthMatches(AuthVerdict(ModeClass(Lower(pol.squash)), rq.cred),
+  Established => AuthMatches(AuthVerdict(ModeClass(Lower(pol0.squash)), rq.cred),
                              [allowed |-> TRUE, uid |-> eff.uid, gid |-> eff.gid, aux |-> eff.aux])
 CredDecided ==
   (ph = "done" /\ out = "DENIED" /\ AdmitNow = "yes")
-     => AuthVerdict(ModeClass(Lower(pol.squash)), rq.cred).allow # "yes"
+     => AuthVerdict(ModeClass(Lower(pol0.squash)), rq.cred).allow # "yes"
 NoRootUnderRootSquash ==
-  (Established /\ Lower(pol.squash) = "root") => eff.uid # ROOT /\ eff.gid # ROOT /\ ROOT \notin Rng(eff.aux)
+  (Established /\ Lower(pol0.squash) = "root") => eff.uid # ROOT /\ eff.gid # ROOT /\ ROOT \notin Rng(eff.aux)
 AllIsNobody ==
-  (Established /\ Lower(pol.squash) = "all") => eff.uid = NOBODY /\ eff.gid = NOBODY /\ Rng(eff.aux) \subseteq {NOBODY}
+  (Established /\ Lower(pol0.squash) = "all") => eff.uid = NOBODY /\ eff.gid = NOBODY /\ Rng(eff.aux) \subseteq {NOBODY}
 SquashIdempotent ==
   (ph = FirstPhase /\ Focus = "cred" /\ rq.cred.flavor = "SYS")
-     => LET mc == ModeClass(Lower(pol.squash))
+     => LET mc == ModeClass(Lower(pol0.squash))
             s  == SquashIds(mc, rq.cred.uid, rq.cred.gid, rq.cred.aux)
         IN  /\ SquashIds(mc, s.uid, s.gid, s.aux) = s
             /\ Len(s.aux) = Len(rq.cred.aux)
@@ -282,7 +291,7 @@ MaskDistributes ==
   out = "ACCEPTED" => \A m \in 0..63 : granted[m] = AndTab[m][granted[63]]
 
 TypeOK == /\ ph \in {"accept", "step1", "step2", "step3", "squash", "spawn", "handler", "done"}
-          /\ out \in {"none", "closed", "DENIED", "ACCEPTED"}
+          /\ out \in {"none", "closed", "DENIED", "ACCEPTED", "replied"}
           /\ reached \in BOOLEAN /\ bcalls \in 0..1 /\ nreq \in 1..2
           /\ (out = "ACCEPTED") => reached
 =============================================================================
